@@ -10,7 +10,8 @@ Section OptionProofs.
   Notation is_option' := (is_option r_option).
   Notation get_key' := (get_key r_KEY).
   Notation get_value' := (get_value r_VALUE).
-  Notation set_go' := (set_go r_option r_KEY r_VALUE).
+  Notation set_go' := (set_go r_option r_KEY r_VALUE r_EQUAL).
+  Notation set_node' := (set_node r_option r_KEY r_VALUE r_EQUAL).
   Notation set_option' := (set_option r_option r_KEY r_VALUE r_EQUAL r_WS).
   Notation is_target' := (is_target r_option r_KEY).
   Notation remove_go' := (remove_go r_option r_KEY r_WS).
@@ -23,7 +24,7 @@ Section OptionProofs.
 
   (* ---- set_option ---- *)
   Lemma set_go_found : forall key v l r, set_go' key v l = Some (Some r) ->
-    exists pre o post, l = pre ++ o :: post /\ r = pre ++ replace_first (Tok r_VALUE None v) o :: post /\
+    exists pre o post, l = pre ++ o :: post /\ r = pre ++ set_node' key v o :: post /\
                        keyed key o = true /\ forallb (fun x => negb (keyed key x)) pre = true.
   Proof.
     intros key v. induction l as [|n tl IH]; intros r H; cbn [set_go] in H; [discriminate|].
@@ -40,7 +41,7 @@ Section OptionProofs.
 
   (* set_option changes one option in place or inserts [WS; KEY=VALUE] at one position: every other child is untouched *)
   Lemma set_option_frame_lemma : forall ch key v res, set_option' ch key v = Some res ->
-    (exists pre o post, ch = pre ++ o :: post /\ res = pre ++ replace_first (Tok r_VALUE None v) o :: post /\
+    (exists pre o post, ch = pre ++ o :: post /\ res = pre ++ set_node' key v o :: post /\
                         keyed key o = true /\ forallb (fun x => negb (keyed key x)) pre = true) \/
     (exists pre post, ch = pre ++ post /\
                       res = pre ++ [ws_token r_WS; create_option r_option r_KEY r_VALUE r_EQUAL key (Some v)] ++ post).
@@ -81,20 +82,27 @@ Section OptionProofs.
     - destruct c as [r p w | r m cc]; cbn [leaf]; [destruct (Pos.eqb r r_KEY); [reflexivity | exact IH] | exact IH].
   Qed.
 
-  (* read back: when the option that is set has a VALUE child, it has the new value afterwards (and still its key) *)
+  (* read back, for every option (with or without a value): afterwards it has the new value and the key *)
+  Lemma set_node_readback : forall key v o, r_KEY <> r_VALUE -> keyed key o = true ->
+    keyed key (set_node' key v o) = true /\ get_value' (set_node' key v o) = Some v.
+  Proof.
+    intros key v o NE K. unfold set_node. destruct o as [rr p w | rr m cc]; [discriminate|].
+    unfold keyed in K. cbn [is_option get_key] in K. apply andb_true_iff in K. destruct K as [K1 K2].
+    cbn [has_value]. destruct (existsb (fun c => Pos.eqb (rule_of c) r_VALUE) cc) eqn:HV.
+    - unfold keyed. cbn [replace_first is_option get_key get_value]. rewrite replace_first_key by exact NE. rewrite K1, K2.
+      split; [reflexivity | apply replace_first_value; exact HV].
+    - unfold keyed, create_option. cbn [replace_first is_option get_key get_value]. rewrite replace_first_key by exact NE.
+      cbn [leaf]. rewrite !Pos.eqb_refl, text_eqb_refl. split; [reflexivity|].
+      apply replace_first_value. cbn [has_rule existsb rule_of]. rewrite Pos.eqb_refl, !orb_true_r. reflexivity.
+  Qed.
+
   Lemma set_option_readback_lemma : forall ch key v r, r_KEY <> r_VALUE ->
     set_go' key v ch = Some (Some r) ->
-    (forall o, find (keyed key) ch = Some o -> match o with Tree _ _ cc => has_rule r_VALUE cc = true | Tok _ _ _ => False end) ->
     exists pre o' post, r = pre ++ o' :: post /\ forallb (fun x => negb (keyed key x)) pre = true /\
                         keyed key o' = true /\ get_value' o' = Some v.
   Proof.
-    intros ch key v r NE H G. destruct (set_go_found key v ch r H) as [pre [o [post [-> [-> [Ko Hp]]]]]].
-    assert (find (keyed key) (pre ++ o :: post) = Some o) as F.
-    { clear - Ko Hp. induction pre as [|x pre IH]; cbn [app find]; [rewrite Ko; reflexivity|].
-      cbn [forallb] in Hp. apply andb_true_iff in Hp. destruct Hp as [H1 H2]. apply negb_true_iff in H1. rewrite H1. apply IH. exact H2. }
-    specialize (G o F). exists pre, (replace_first (Tok r_VALUE None v) o), post. split; [reflexivity|]. split; [exact Hp|].
-    destruct o as [rr p w | rr m cc]; [contradiction|]. unfold keyed in *. cbn [replace_first is_option get_key get_value] in *.
-    rewrite replace_first_key by exact NE. split; [exact Ko | apply replace_first_value; exact G].
+    intros ch key v r NE H. destruct (set_go_found key v ch r H) as [pre [o [post [-> [-> [Ko Hp]]]]]].
+    exists pre, (set_node' key v o), post. split; [reflexivity|]. split; [exact Hp|]. apply set_node_readback; assumption.
   Qed.
 
   (* ---- remove_option ---- *)
@@ -108,7 +116,7 @@ Section OptionProofs.
     - injection H as <-. rewrite app_nil_r. reflexivity.
     - destruct (is_target' key n) as [[|]|] eqn:T; [| |discriminate].
       + assert (kept key n = false) as Kn by (unfold kept, target_b; rewrite T; apply andb_false_r).
-        destruct acc as [|a acc']; [discriminate|]. destruct (is_ws_tok' a) eqn:W.
+        destruct acc as [|a acc']; [rewrite (IH [] res H); cbn [rev app filter]; rewrite Kn; reflexivity|]. destruct (is_ws_tok' a) eqn:W.
         * assert (kept key a = false) as Ka by (unfold kept; rewrite W; reflexivity).
           rewrite (IH acc' res H). cbn [rev]. rewrite <- app_assoc, !filter_app. cbn [app filter]. rewrite Kn, Ka. reflexivity.
         * rewrite (IH (a :: acc') res H). rewrite !filter_app. cbn [filter]. rewrite Kn. reflexivity.
@@ -126,31 +134,27 @@ Section OptionProofs.
     intros key. induction l as [|n tl IH]; intros acc res H A; cbn [remove_go] in H.
     - injection H as <-. rewrite forallb_forall in *. intros x Hx. apply A. apply in_rev. exact Hx.
     - destruct (is_target' key n) as [[|]|] eqn:T; [| |discriminate].
-      + destruct acc as [|a acc']; [discriminate|]. cbn [forallb] in A. apply andb_true_iff in A. destruct A as [A1 A2].
+      + destruct acc as [|a acc']; [apply (IH [] res H); reflexivity|]. cbn [forallb] in A. apply andb_true_iff in A. destruct A as [A1 A2].
         destruct (is_ws_tok' a); [apply (IH acc' res H A2) | apply (IH (a :: acc') res H)]. cbn [forallb]. rewrite A1, A2. reflexivity.
       + apply (IH (n :: acc) res H). cbn [forallb]. unfold target_b at 1. rewrite T. cbn. exact A.
   Qed.
 
-  (* it never raises when something that is not blank space precedes all options *)
-  Lemma remove_go_total : forall key l acc c, is_ws_tok' c = false ->
+  (* it never raises as long as every option has a KEY *)
+  Lemma remove_go_total : forall key l acc,
     forallb (fun n => match is_target' key n with Some _ => true | None => false end) l = true ->
-    exists res, remove_go' key (acc ++ [c]) l = Some res.
+    exists res, remove_go' key acc l = Some res.
   Proof.
-    intros key. induction l as [|n tl IH]; intros acc c W D; cbn [remove_go]; [eexists; reflexivity|].
+    intros key. induction l as [|n tl IH]; intros acc D; cbn [remove_go]; [eexists; reflexivity|].
     cbn [forallb] in D. apply andb_true_iff in D. destruct D as [D1 D2].
     destruct (is_target' key n) as [[|]|] eqn:T; [| |discriminate].
-    - destruct acc as [|a acc']; cbn [app].
-      + rewrite W. apply (IH [] c W D2).
-      + destruct (is_ws_tok' a); [apply (IH acc' c W D2) | apply (IH (a :: acc') c W D2)].
-    - apply (IH (n :: acc) c W D2).
+    - destruct acc as [|a acc']; [apply (IH [] D2)|]. destruct (is_ws_tok' a); [apply (IH acc' D2) | apply (IH (a :: acc') D2)].
+    - apply (IH (n :: acc) D2).
   Qed.
 
-  Lemma remove_option_total_lemma : forall c tl key, is_ws_tok' c = false -> is_target' key c = Some false ->
-    forallb (fun n => match is_target' key n with Some _ => true | None => false end) tl = true ->
-    exists res, remove_option' (c :: tl) key = Some res.
-  Proof.
-    intros c tl key W T D. unfold remove_option. cbn [remove_go]. rewrite T. apply (remove_go_total key tl [] c W D).
-  Qed.
+  Lemma remove_option_total_lemma : forall ch key,
+    forallb (fun n => match is_target' key n with Some _ => true | None => false end) ch = true ->
+    exists res, remove_option' ch key = Some res.
+  Proof. intros ch key D. unfold remove_option. apply remove_go_total. exact D. Qed.
 
   (* ---- replace_option ---- *)
   Lemma replace_option_frame_lemma : forall old new ch res, replace_option r_option r_KEY r_VALUE ch old new = Some res ->
